@@ -41,7 +41,7 @@ let handle_seq r =
             | Ok (ob', o) ->
                 objs.(ob) <- ob';
                 put_w "C"; put_out o;
-                put_i (match fresh_call fops ftols.(ob) c with Ok o2 -> if o2 = o then 1 else (if compare o2 o = 0 then 1 else 0) | _ -> 0)
+                put_i (match fresh_call fops ftols.(ob) c with Ok o2 -> if compare o2 o = 0 then 1 else 0 | _ -> 0)
             | bad -> Buffer.clear buf; first := true; put_w (res_word bad); raise Seq_stop))
     done
   with Seq_stop -> ())
@@ -73,12 +73,13 @@ let handle_nest r =
       (match profile_fmin fops g !zl !zr !tol_in x with
        | Ok v -> v
        | bad -> raise (Inner_exit (res_word bad))) in
-  let vals = ref [] in
-  let fobj x = let v = bigf x in vals := v :: !vals; v in
+  (* the values the objective returned, in call order: recomputed from the trace (F is a function: C11_minimize_history_independent),
+     so that nothing depends on the order in which the extracted code happens to evaluate [map f pp] *)
+  let fobj x = bigf x in
   try
     if outer = "fmin" then
       (match find_minimum fops (fun x -> fobj [x]) !xl !xr !tol with
-       | Ok (x, tr) -> put_f x; put_fl tr; put_fl (List.rev !vals); put_f (bigf [x])
+       | Ok (x, tr) -> put_f x; put_fl tr; put_fl (List.map (fun t -> bigf [t]) tr); put_f (bigf [x])
        | bad -> put_w (res_word bad))
     else
       (let res = match !call with
@@ -87,7 +88,7 @@ let handle_nest r =
          | Some (`One (st, d)) -> minimize_delta fops fobj !ftol st d
          | None -> Exit in
        match res with
-       | Ok o -> put_out o; put_fl (List.rev !vals); put_fl (List.map bigf o.o_simplex)
+       | Ok o -> put_out o; put_fl (List.map bigf o.o_tr); put_fl (List.map bigf o.o_simplex)
        | bad -> put_w (res_word bad))
   with Inner_exit w -> Buffer.clear buf; first := true; put_w w
 
